@@ -18,20 +18,21 @@ var c09AssertAllow = []allowSite{
 }
 
 var c09PreconditionAllow = []allowSite{
-	{"op.NewDeviceCode", "make(nBytes)", "the size is the provider's configuration constant RecommendedDeviceCodeBytes (>= 16, checked in C16), not request input"},
-	{"op.NewUserCode", "crypto/rand.Int(max)", "max = len(charSet) of the provider's configured user-code alphabet (configuration, not request input); an empty alphabet is a deployment error"},
-	{"op.NewUserCode", "strings.Builder.Grow(((charAmount + (charAmount / dashInterval)) - 1))", "provider configuration (UserCodeConfig), not request input"},
-	{"op.NewUserCode", "strings.Builder.Grow(charAmount)", "provider configuration (UserCodeConfig), not request input"},
+	// expr = callee | parameters the argument may derive from
+	{"op.NewDeviceCode", "make|nBytes", "the size is the provider's configuration constant RecommendedDeviceCodeBytes (>= 16, checked in C16), not request input"},
+	{"op.NewUserCode", "crypto/rand.Int|charSet", "max = len(charSet) of the provider's configured user-code alphabet (configuration, not request input); an empty alphabet is a deployment error"},
+	{"op.NewUserCode", "strings.Builder.Grow|charAmount,dashInterval", "provider configuration (UserCodeConfig), not request input"},
 }
 
+// expr = name-insensitive rendering (canon.go): single-assignment locals replaced by their definitions, other locals "_"
 var c09BoundsAllow = []allowSite{
-	{"client/rp.AuthURLHandler", "opts[i]", "opts is make(len(urlParam)) and i ranges over urlParam"},
-	{"crypto.HashString", "hash.Sum(nil)[:size]", "size is hash.Size() or half of it; Sum(nil) returns exactly Size() bytes"},
-	{"http.ConcatenateJSON", "first[len(first) - 1]", "first ends in '}' (HasSuffix checked), so len(first) >= 1"},
-	{"http.ConcatenateJSON", "second[1:]", "second starts with '{' (HasPrefix checked), so len(second) >= 1"},
-	{"oidc.(*Audience).UnmarshalJSON", "(*a)[i]", "*a is make(len(aud)) and i ranges over aud"},
+	{"client/rp.AuthURLHandler", "_[_]", "opts is make(len(urlParam)) and i ranges over urlParam"},
+	{"crypto.HashString", "hash.Sum(nil)[, _, :]", "size is hash.Size() or half of it; Sum(nil) returns exactly Size() bytes"},
+	{"http.ConcatenateJSON", "first[(len(first) - 1)]", "first ends in '}' (HasSuffix checked), so len(first) >= 1"},
+	{"http.ConcatenateJSON", "second[1, , :]", "second starts with '{' (HasPrefix checked), so len(second) >= 1"},
+	{"oidc.(*Audience).UnmarshalJSON", "*a[_]", "*a is make(len(aud)) and i ranges over aud"},
 	{"oidc.mergeAndMarshalClaims", "", "inlined bytes.Buffer.Bytes(): a slice of the buffer's own storage"},
-	{"op.NewUserCode", "charSet[int(bi.Int64())]", "bi is drawn from [0, len(charSet)) by rand.Int(_, big.NewInt(len(charSet)))"},
+	{"op.NewUserCode", "charSet[int(res:0(rand.Int(rand.Reader, big.NewInt(int64(len(charSet))))).Int64())]", "the index is drawn from [0, len(charSet)) by rand.Int(_, big.NewInt(len(charSet)))"},
 }
 
 func init() {
